@@ -62,6 +62,166 @@ func Catalogue(prop, tier string) []Cfg {
 	switch prop {
 	case "C01", "C02", "C07", "C19":
 		prioCore()
+	case "C05":
+		sat := func(disc string, p []uint, h uint, div string, r int, env string) {
+			for !accepted(p, h, div) {
+				h++ // smallest quantity the constructor accepts
+			}
+			n := int(h) + r
+			c := pc(disc, p, h, div, []int{n}, []int{n}, env, "saturate")
+			c.R = r
+			add(c)
+		}
+		sat("v2", []uint{2, 1}, 2, "fair", 3, "rr")
+		sat("v2", []uint{2, 1}, 3, "rate", 3, "rr")
+		sat("v2", []uint{2, 1}, 3, "low", 3, "rr")
+		sat("v2", []uint{3, 2, 1}, 3, "fair", 2, "rr")
+		sat("v2", []uint{3, 2, 1}, 4, "rate", 2, "rr")
+		sat("v2", []uint{3, 2, 1}, 6, "rate", 2, "rr")
+		sat("v2", []uint{5, 3, 1}, 4, "rate", 2, "rr")
+		sat("v1", []uint{2, 1}, 2, "fair", 3, "rr")
+		sat("v1", []uint{2, 1}, 3, "rate", 3, "rr")
+		sat("v1", []uint{3, 2, 1}, 3, "fair", 2, "rr")
+		sat("v2", []uint{2, 1}, 2, "fair", 2, "pool")
+		if !quick {
+			sat("v2", []uint{2, 1}, 4, "rate", 5, "rr")
+			sat("v2", []uint{3, 2, 1}, 6, "rate", 4, "rr")
+			sat("v2", []uint{3, 2, 1}, 5, "fair", 4, "rr")
+			sat("v2", []uint{5, 3, 1}, 7, "rate", 3, "rr")
+			sat("v2", []uint{70, 20, 10}, 10, "rate", 2, "rr")
+			sat("v1", []uint{3, 2, 1}, 6, "rate", 3, "rr")
+			sat("v2", []uint{3, 2, 1}, 3, "low", 4, "rr")
+		}
+	case "C06":
+		// single active priority with n >= H+1, sparse inputs, skewed priorities,
+		// unbuffered inputs, minimum H
+		add(pc("v2", []uint{2, 1}, 2, "fair", []int{3, 0}, []int{3, 0}, "rr", ""))
+		add(pc("v2", []uint{2, 1}, 2, "rate", []int{0, 3}, []int{0, 3}, "rr", ""))
+		add(pc("v2", []uint{3, 2, 1}, 3, "fair", []int{1}, []int{1, 0, 1}, "rr", ""))
+		add(pc("v2", []uint{3, 2, 1}, 4, "rate", []int{4, 1, 1}, []int{4, 0, 0}, "rr", "preclosed"))
+		add(pc("v2", []uint{100, 1}, 2, "fair", []int{2}, []int{2}, "rr", ""))
+		add(pc("v2", []uint{100, 1}, 101, "rate", []int{1}, []int{1, 2}, "rr", "preclosed"))
+		add(pc("v2", []uint{1}, 1, "fair", []int{0}, []int{3}, "rr", ""))
+		add(pc("v2", []uint{2, 1}, 2, "fair", []int{0}, []int{2}, "pool", ""))
+		add(pc("v2", []uint{2, 1}, 2, "rate", []int{2}, []int{2}, "pool", ""))
+		add(pc("v2", []uint{7, 5, 3, 2}, 4, "fair", []int{1}, []int{1}, "rr", "preclosed"))
+		add(pc("v2", []uint{7, 5, 3, 2}, 5, "rate", []int{1}, []int{1, 0, 1, 1}, "rr", "preclosed"))
+		add(pc("s2", []uint{2, 1}, 2, "fair", []int{2}, []int{2, 1}, "", ""))
+		add(pc("v1", []uint{2, 1}, 2, "fair", []int{3, 0}, []int{3, 0}, "rr", ""))
+		add(pc("v1", []uint{2, 1}, 3, "rate", []int{0, 2}, []int{2, 2}, "pool", ""))
+		// alone: only one priority has data, handlers never release: it must get all H
+		for _, d := range []string{"v2", "v1"} {
+			c := pc(d, []uint{3, 2, 1}, 3, "fair", []int{4, 1, 1}, []int{4, 0, 0}, "rr", "alone")
+			add(c)
+			c = pc(d, []uint{3, 2, 1}, 4, "rate", []int{1, 1, 5}, []int{0, 0, 5}, "rr", "alone")
+			add(c)
+			c = pc(d, []uint{2, 1}, 3, "rate", []int{1, 4}, []int{0, 4}, "rr", "alone")
+			add(c)
+		}
+		// stingy: the releaser may stop for good at any time
+		add(pc("v2", []uint{2, 1}, 2, "fair", []int{3}, []int{3}, "rr", "stingy"))
+		add(pc("v2", []uint{2, 1}, 3, "rate", []int{0, 3}, []int{2, 3}, "rr", "stingy"))
+		add(pc("v2", []uint{3, 2, 1}, 3, "fair", []int{2}, []int{2}, "rr", "stingy"))
+		add(pc("v1", []uint{2, 1}, 2, "fair", []int{3}, []int{3}, "rr", "stingy"))
+		if !quick {
+			add(pc("v2", []uint{3, 2, 1}, 3, "fair", []int{2}, []int{2}, "rr", ""))
+			add(pc("v2", []uint{3, 2, 1}, 4, "rate", []int{0, 1, 2}, []int{2, 1, 2}, "rr", ""))
+			add(pc("v2", []uint{7, 5, 3, 2}, 5, "rate", []int{2}, []int{2, 1, 1, 1}, "rr", "preclosed"))
+			add(pc("v1", []uint{3, 2, 1}, 3, "fair", []int{2}, []int{2, 1, 2}, "rr", "preclosed"))
+		}
+	case "C15":
+		for _, d := range []string{"v2", "v1"} {
+			c := pc(d, []uint{2, 1}, 2, "fair", []int{2}, []int{2}, "rr", "")
+			c.Fault = true
+			add(c)
+			c = pc(d, []uint{2, 1}, 3, "rate", []int{3}, []int{3, 2}, "rr", "")
+			c.Fault = true
+			add(c)
+			c = pc(d, []uint{3, 2, 1}, 3, "fair", []int{1}, []int{1}, "rr", "preclosed")
+			c.Fault = true
+			add(c)
+			c = pc(d, []uint{2, 1}, 2, "fair", []int{0, 2}, []int{2}, "pool", "")
+			c.Fault = true
+			add(c)
+		}
+		c := pc("s2", []uint{2, 1}, 2, "fair", []int{2}, []int{2, 1}, "", "")
+		c.Fault = true
+		add(c)
+		c = pc("s1", []uint{2, 1}, 2, "fair", []int{2}, []int{1, 1}, "", "")
+		c.Fault = true
+		add(c)
+		if !quick {
+			c = pc("v2", []uint{3, 2, 1}, 4, "rate", []int{2}, []int{2}, "rr", "preclosed")
+			c.Fault = true
+			add(c)
+			c = pc("v1", []uint{3, 2, 1}, 4, "rate", []int{2}, []int{2}, "rr", "preclosed")
+			c.Fault = true
+			add(c)
+		}
+	case "C17":
+		for _, env := range []string{"rr"} {
+			c := pc("v1", []uint{2, 1}, 3, "fair", []int{2}, []int{2}, env, "")
+			c.Script = 2
+			if !quick {
+				c.Script = 3
+			}
+			add(c)
+			c = pc("v1", []uint{2, 1}, 3, "rate", []int{2}, []int{2, 1}, env, "preclosed")
+			c.Script = 3
+			if !quick {
+				c.Script = 4
+			}
+			add(c)
+			c = pc("v1", []uint{2, 1}, 3, "fair", []int{0, 2}, []int{2, 1}, env, "")
+			c.Script = 2
+			c.OutCap = 1
+			add(c)
+		}
+		c := pc("v1", []uint{2, 1}, 3, "fair", []int{2}, []int{1, 1}, "pool", "")
+		c.Script = 2
+		add(c)
+	case "C16":
+		for _, stop := range []string{"stop", "cancel"} {
+			for _, mode := range []string{"", "norelease", "noread"} {
+				for _, h := range []uint{1, 2} {
+					c := pc("v1", []uint{2, 1}, h, "fair", []int{2}, []int{2}, "pool", mode)
+					if h == 1 {
+						c.P, c.N = []uint{1}, []int{3}
+						c.Cap = []int{3}
+					}
+					c.Stop = stop
+					c.Graph = true
+					add(c)
+					c.OutCap, c.FbCap = 1, 1
+					add(c)
+				}
+			}
+			// producers blocked on unbuffered / full inputs
+			c := pc("v1", []uint{2, 1}, 2, "rate", []int{0, 1}, []int{2, 3}, "rr", "")
+			c.Stop = stop
+			add(c)
+			// simplified discipline: Handle busy until its context is cancelled / quick Handle
+			for _, mode := range []string{"norelease", ""} {
+				c = pc("s1", []uint{2, 1}, 2, "fair", []int{2}, []int{2, 1}, "", mode)
+				c.Stop = stop
+				add(c)
+				c = pc("s1", []uint{1}, 1, "fair", []int{2}, []int{2}, "", mode)
+				c.Stop = stop
+				add(c)
+			}
+			// join: Stop before any data, mid slice, output full, waiting for release
+			for _, nocopy := range []bool{false, true} {
+				for _, mode := range []string{"", "norelease"} {
+					if mode == "norelease" && !nocopy {
+						continue
+					}
+					j := Cfg{Harness: "join", Disc: "join1", J: 2, NoCopy: nocopy, Cap: []int{1}, N: []int{4}, Stop: stop, Mode: mode, Bound: -1, Graph: true}
+					add(j)
+					j.Timeout, j.Pauses, j.Delays = 4, []int64{0, 5}, []int64{0, 5}
+					add(j)
+				}
+			}
+		}
 	case "C03":
 		for _, disc := range []string{"join2", "unite2", "join1"} {
 			for _, j := range []int{1, 2, 3} {
@@ -102,4 +262,16 @@ func Assumptions(prop string) []string {
 		"the source rewrite (vxform) and the virtual runtime (vrt) preserve Go channel/select/time semantics; vrt is differentially tested against native channels",
 		"bounded configurations as listed in coverage.per_configuration",
 	}
+}
+
+// accepted: every configured priority gets a non-zero share of h.
+func accepted(p []uint, h uint, div string) bool {
+	d := map[uint]uint{}
+	dividerOf(div)(p, h, d)
+	for _, q := range p {
+		if d[q] == 0 {
+			return false
+		}
+	}
+	return true
 }
